@@ -64,19 +64,19 @@ def load_known(ctx):
 # ----------------------------------------------------------------------------- objsim-based checks
 # runs: (quick, thorough) for the plain flavour; other flavours take a fraction
 OBJSIM = {
-    "C03": dict(runs=(60000, 4000000), flavours=[("plain", 1.0, 0), ("asan", 0.2, 1)], level="exploration"),
-    "C04": dict(runs=(40000, 3000000), flavours=[("plain", 1.0, 0), ("asan", 0.2, 1), ("o0", 0.3, 2)], level="exploration"),
-    "C05": dict(runs=(40000, 3000000), flavours=[("plain", 1.0, 0), ("asan", 0.2, 1)], level="exploration"),
-    "C06": dict(runs=(20000, 1500000), flavours=[("plain", 1.0, 0), ("asan", 0.2, 1)], level="exploration"),
-    "C07": dict(runs=(30000, 1500000), flavours=[("plain", 1.0, 0), ("asan", 0.25, 1)], level="exploration"),
-    "C09": dict(runs=(30000, 2000000), flavours=[("plain", 0.7, 0), ("asan", 0.5, 1)], level="exploration"),
-    "C10": dict(runs=(30000, 1500000), flavours=[("plain", 1.0, 0), ("o0", 1.0, 0), ("asan", 0.3, 0)], level="exploration"),
-    "C11": dict(runs=(16000, 800000), flavours=[("plain", 1.0, 0), ("o0", 1.0, 0), ("asan", 1.0, 0)], level="exploration", digests=True),
+    "C03": dict(runs=(200000, 6000000), flavours=[("plain", 1.0, 0), ("asan", 0.2, 1)], level="exploration"),
+    "C04": dict(runs=(120000, 4000000), flavours=[("plain", 1.0, 0), ("asan", 0.2, 1), ("o0", 0.3, 2)], level="exploration"),
+    "C05": dict(runs=(160000, 5000000), flavours=[("plain", 1.0, 0), ("asan", 0.2, 1)], level="exploration"),
+    "C06": dict(runs=(80000, 2500000), flavours=[("plain", 1.0, 0), ("asan", 0.2, 1)], level="exploration"),
+    "C07": dict(runs=(100000, 2000000), flavours=[("plain", 1.0, 0), ("asan", 0.25, 1)], level="exploration"),
+    "C09": dict(runs=(100000, 3000000), flavours=[("plain", 0.7, 0), ("asan", 0.5, 1)], level="exploration"),
+    "C10": dict(runs=(100000, 2500000), flavours=[("plain", 1.0, 0), ("o0", 1.0, 0), ("asan", 0.3, 0)], level="exploration"),
+    "C11": dict(runs=(40000, 1200000), flavours=[("plain", 1.0, 0), ("o0", 1.0, 0), ("asan", 1.0, 0)], level="exploration", digests=True),
     "C13": dict(runs=(0, 0), flavours=[("plain", 1.0, 0), ("o0", 1.0, 0)], level="fault_enumeration"),
-    "C14": dict(runs=(30000, 2000000), flavours=[("plain", 1.0, 0), ("asan", 0.25, 1)], level="exploration"),
-    "C15": dict(runs=(40000, 3000000), flavours=[("plain", 1.0, 0), ("asan", 0.25, 1)], level="exploration"),
-    "C16": dict(runs=(12000, 300000), flavours=[("plain", 1.0, 0), ("asan", 0.25, 0), ("o0", 0.5, 0)], level="fault_enumeration"),
-    "C17": dict(runs=(40000, 3000000), flavours=[("plain", 1.0, 0), ("asan", 0.25, 1)], level="exploration"),
+    "C14": dict(runs=(100000, 3000000), flavours=[("plain", 1.0, 0), ("asan", 0.25, 1)], level="exploration"),
+    "C15": dict(runs=(150000, 4000000), flavours=[("plain", 1.0, 0), ("asan", 0.25, 1)], level="exploration"),
+    "C16": dict(runs=(40000, 600000), flavours=[("plain", 1.0, 0), ("asan", 0.25, 0), ("o0", 0.5, 0)], level="fault_enumeration"),
+    "C17": dict(runs=(150000, 4000000), flavours=[("plain", 1.0, 0), ("asan", 0.25, 1)], level="exploration"),
 }
 
 RULES = {
@@ -93,6 +93,18 @@ RULES = {
     "C15": "1-5 objects of mixed kinds/back ends, histories of init/key/tweak/counter/process/cleanup/cleanup-again/cleanup(NULL)/zeroed handle/use-after-cleanup/re-init up to 60 ops; SimHeap ledger: each block freed exactly once with the pointer the allocator returned, nothing touched after free (cells are made inaccessible), empty heap after final cleanup",
     "C16": "init function x back end x failing allocation index x class of prior handle content (junk, zeros, 0xFF, pointers to a live caller block, pointers into a guard page, bytes of a cleaned-up handle), enumerated by run index; then a seeded tail of cleanup / other calls / re-init",
     "C17": "C15's histories weighted towards cleanup in rich states; at every free() from library code SimHeap scans the whole block for non-zero bytes; non-trivial = freed block that had held non-zero data",
+}
+
+
+# reach probes that must not stay at zero in a clean run (a probe stuck at zero means the workload or fault mix must change)
+EXPECT_PROBES = {
+    "C03": ["rtrip.block", "rtrip.parallel", "tweak.null"],
+    "C04": ["tweak.null", "tweak.short", "tweak.same-value-again", "tweak-change.inside-batch", "counter.null"],
+    "C05": ["ctr.carry>=2", "ctr.carry>=half", "ctr.wrap", "ctr.wrap-inside-simd-batch", "counter.short", "counter.null", "counter.length-0", "frag.ends-on-batch-boundary",
+            "frag.ends-one-before-batch-boundary", "frag.ends-one-after-batch-boundary", "frag.zero-length.buffer-empty", "frag.zero-length.buffer-half-used", "counter.set-with-keystream-left", "frag.in-place"],
+    "C06": ["rekey.inside-batch.whole-blocks-consumed", "rekey.inside-batch.inside-a-block", "rekey.at-batch-boundary", "tweak-change.inside-batch"],
+    "C10": ["key.partial-length"],
+    "C17": ["heap.freed-block-had-data"],
 }
 
 
@@ -174,8 +186,12 @@ def finish(ctx, level, rule, results, violations, findings, extra_cov=None, assu
             samples.append("[%s] %s" % (fl, s))
     for v, k in (violations + findings)[:4]:
         samples.append({"violation": v["sig"], "minimised_history": v.get("trace", [])[:40]})
+    zero = [p for p in EXPECT_PROBES.get(ctx.pid, []) if not probes.get(p)]
+    for p in zero:
+        print("WARNING: reach probe '%s' stayed at zero in this run" % p)
     cov = {
         "evaluations": int(evaluations),
+        "probes_stuck_at_zero": zero,
         "distinct_nontrivial": len(hashes),
         "rule": rule,
         "samples": samples[:10] if samples else ["(no sample recorded)"],
@@ -215,14 +231,37 @@ def finish(ctx, level, rule, results, violations, findings, extra_cov=None, assu
 
 
 # ----------------------------------------------------------------------------- replay
+def replay_digest(ctx, path, meta):
+    """cross-build digest mismatch (C11): regenerate the run on both builds and show the first operation that differs"""
+    a, b = meta["sig"].split(":")[1].split("-vs-")
+    dumps = []
+    for fl in (a, b):
+        d = build_flavour(ctx, fl)
+        p = subprocess.run([os.path.join(d, "objsim"), "--prop", meta["prop"], "--seed", meta["seed"], "--dump", meta["run"]], capture_output=True, text=True)
+        dumps.append([re.sub(r"\s+\[[a-z\-]+,be=-?\d+\]$", "", l) for l in p.stdout.split("\n") if not l.startswith("--- execution")])
+    for i, (x, y) in enumerate(zip(dumps[0], dumps[1])):
+        if x != y:
+            print("first difference between the %s and %s builds at trace line %d:\n  %s: %s\n  %s: %s" % (a, b, i, a, x[:400], b, y[:400]))
+            print("VIOLATION property=%s replay=%s" % (meta["prop"], path))
+            return 1
+    print("REPLAY-CLEAN property=%s file=%s" % (meta["prop"], path))
+    return 0
+
+
 def replay(ctx, path):
     fl = "plain"
     engine = "objsim"
+    meta = {}
     for ln in open(path):
+        t = ln.split()
+        if len(t) >= 2 and not ln.startswith("#"):
+            meta[t[0]] = t[1]
         if ln.startswith("flavour "):
             fl = ln.split()[1]
         if ln.startswith("engine "):
             engine = ln.split()[1]
+    if meta.get("regen") == "1":
+        return replay_digest(ctx, path, meta)
     if engine == "objsim":
         d = build_flavour(ctx, fl)
         return subprocess.run([os.path.join(d, "objsim"), "--replay", path]).returncode
